@@ -98,6 +98,9 @@ func NewParser(grammar *Grammar) (*Parser, error) {
 
 // Parse attempts to run the parser for the given input.
 func (p *Parser) Parse(llk *LLk, st *semantic.Statement) error {
+	// The lexer goroutine stays blocked on its channel until every token has
+	// been received. On every exit path read what the parser did not consume.
+	defer llk.drain()
 	b, err := p.consume(llk, st, "START")
 	if err != nil {
 		return err
